@@ -213,15 +213,25 @@ func shapeWinbox(t *rapid.T, b []byte) []byte {
 		body = append(body, 7)
 	}
 	body = append(body, byte(rapid.IntRange(0, 2).Draw(t, "parity")))
+	// chunks of 255 bytes, the last one shorter - or, one time in four, cut elsewhere: a framing the serialiser never
+	// produces, which the parser may refuse but must not accept as if it were the canonical one
+	step := 255
+	if rapid.IntRange(0, 3).Draw(t, "shortChunks") == 0 {
+		step = rapid.IntRange(1, 254).Draw(t, "chunkStep")
+	}
 	var out []byte
-	for i := 0; i < len(body); i += 255 {
-		end := min(i+255, len(body))
+	for i := 0; i < len(body); {
+		end := min(i+step, len(body))
 		typ := byte(0xFF)
 		if i == 0 {
 			typ = 0x06
 		}
 		out = append(out, byte(end-i), typ)
 		out = append(out, body[i:end]...)
+		i = end
+		if step != 255 && rapid.Bool().Draw(t, "restCanonical") {
+			step = 255
+		}
 	}
 	switch rapid.IntRange(0, 5).Draw(t, "tail") {
 	case 0:
